@@ -12,6 +12,7 @@ Generated:
   coq/Gen/Errors.v   ErrorReason <-> string tables, recoverable set
   coq/Gen/Consts.v   numeric / character constants read from the sources
   coq/Gen/Dispatch.v accepted message kinds per dispatcher and phase (translator/dispatch.py)
+  coq/Gen/Wiring.v   hand-overs of configured limits by position / field name (translator/wiring.py)
   coq/Gen/PoolOrder.v statement order of the pool's acquire / drop / batch release (translator/poolorder.py)
   coq/Gen/LockLint.v sharded-map accesses whose guard is alive across an await (translator/locklint.py)
   harness/src/gen_schema.rs  Message <-> generic value conversions used by the codec driver
@@ -546,6 +547,11 @@ def main():
         try:
             files[os.path.join(VERIF, "coq/Gen/Dispatch.v")] = dispatch.gen(read, ms["names"])
         except dispatch.Shape as e:
+            raise Shape(str(e))
+        import wiring
+        try:
+            files[os.path.join(VERIF, "coq/Gen/Wiring.v")] = wiring.gen(read)
+        except wiring.Shape as e:
             raise Shape(str(e))
         import poolorder
         try:
